@@ -86,7 +86,7 @@ def run(tier, replay=None):
     v = common.Verdict('C08', tier, 'model_checking')
     if replay:
         return ikeprop.replay_file(v, replay)
-    scen = ['estab', 'init_cookie', 'estab_rekey_ke'] if tier == 'quick' else ['estab_loss', 'estab3', 'init_ke', 'init_cookie', 'estab_pfs', 'estab_rekey_ke', 'init3']
+    scen = ['estab', 'init_cookie', 'estab_rekey_ke', 'estab_pfs'] if tier == 'quick' else ['estab_loss', 'estab3', 'init_ke', 'init_cookie', 'estab_pfs', 'estab_rekey_ke', 'init3']
     ikeprop.run(v, scen, limit=3000 if tier == 'quick' else None)
     rnd = random.Random(common.SEED)
     replay_storm(v, [rnd.randrange(1 << 30) for _ in range(12 if tier == 'quick' else 150)], 40 if tier == 'quick' else 70)
